@@ -13,7 +13,7 @@ ID = "C09"
 LEVEL = "exploration"
 EXHAUSTIVE = True
 RULE = ("every (n solutions, constraint, bounds in 0..n+2, entity|set_of, list|generator|domain-less domain, "
-        "filtered|unfiltered) combination up to n<=N is enumerated (N=6 quick, 10 thorough) plus random n<=60 in "
+        "filtered|unfiltered|filtered by a disjunction over a second one-valued variable) combination up to n<=N is enumerated (N=6 quick, 10 thorough) plus random n<=60 in "
         "thorough; the() around a quantified inner query (inner solutions 0..3 x inner constraint x outer matches 0..2); a case is non-trivial when a constraint is present (an() without constraint is the trivial case); "
         "distinct = (n, constraint kind, bounds, selector, domain kind, filtered)")
 ASSUMPTIONS = ["solutions are produced by a single-variable query whose satisfying elements are known by construction",
@@ -26,7 +26,7 @@ def plan(tier):
     return {"cases": 0 if tier == "quick" else 6000, "shards": 16, "case_timeout": 10,
             "shard_timeout": 600, "min_nontrivial": 500,
             "min_counters": {"yield_events": 1000, "contract_evals": 1000, "construct_rejections": 10, "nested_cases": 100,
-                             "falsy_solutions": 300}}
+                             "falsy_solutions": 300, "union_conditions": 200}}
 
 
 def setup(ctx):
@@ -54,9 +54,11 @@ def exhaustive(tier, ctx):
                 for dom in ("list", "gen", "domainless", "scalar"):
                     if sel == "match" and dom == "scalar":
                         continue    # a pattern needs a class with fields
-                    for filt in (False, True):
-                        if dom == "scalar" and not filt:
+                    for filt in (False, True, "union0", "union1"):
+                        if dom == "scalar" and filt is not True:
                             continue        # the scalar form always carries a condition that binds the variable
+                        if isinstance(filt, str) and (sel == "match" or dom not in ("list", "gen") or n > 4):
+                            continue        # the disjunction over a second variable is written as an explicit query
                         yield {"n": n, "c": list(c), "sel": sel, "dom": dom, "filt": filt, "pad": 2 if filt else 0}
     # a quantified query nested inside the(): a violated inner constraint is reported as what it is
     for n_in in range(0, 4):
@@ -90,7 +92,7 @@ def gen(rng, tier, ctx):
 
 
 def witnesses():
-    return {}
+    return {"union-yields-solution-twice": {"n": 1, "c": ["the"], "sel": "set_of", "dom": "list", "filt": "union1", "pad": 0}}
 
 
 def expected(n, c):
@@ -238,6 +240,16 @@ def run(spec, ctx):
     if not scalar:
         sols = [o for o in objs if o.a == 1] if filt else list(objs)
         conds = [x.a == 1] if (filt and x is not None) else []
+    if isinstance(spec["filt"], str):
+        # x.a == 1 or z.a == 1 with z over ONE object: a solution is an x (with that z); where both sides hold it is
+        # still one solution
+        from krrood.entity_query_language.entity import or_
+        z_obj = m.P(a=1 if spec["filt"] == "union1" else 0, name="z")
+        z = let(m.P, [z_obj], name="z")
+        conds = [or_(x.a == 1, z.a == 1)]
+        if z_obj.a == 1:
+            sols = list(objs)
+        C["union_conditions"] += 1
     if spec["sel"] == "match":
         # the same description written as a pattern (entity_matching on the same variable)
         from krrood.entity_query_language.match import entity_matching
